@@ -179,6 +179,7 @@ func genAppHeaders(r *rand.Rand, prefix string, n int) http.Header {
 }
 
 type ScenOpts struct {
+	Cfg          *SvcConfig // force this service configuration
 	Methods      []*MethodInfo // schema to draw methods from (default: Kitchen)
 	Schema       string
 	Timeouts     bool // add a (valid) timeout header in the client's protocol
@@ -229,8 +230,15 @@ func frameCompPattern(r *rand.Rand, n int) []bool {
 // genScenario draws one transcoding scenario.
 func genScenario(r *rand.Rand, so ScenOpts, marker string) *Scenario {
 	kitchen()
-	for {
+	for tries := 0; ; tries++ {
+		if tries > 300 {
+			return nil // the forced combination cannot be expressed
+		}
 		cfg := genConfig(r)
+		if so.Cfg != nil {
+			cp := *so.Cfg
+			cfg = &cp
+		}
 		cfg.Schema = so.Schema
 		var m *MethodInfo
 		if so.Methods != nil {
@@ -274,6 +282,9 @@ func genScenario(r *rand.Rand, so ScenOpts, marker string) *Scenario {
 			creq.Codec = "json"
 		}
 		comps := []string{"", "", "gzip", "gzip"}
+		if so.Cfg != nil && target == "rest" && (len(m.Rules) == 0 || m.Stream != stUnary) {
+			continue
+		}
 		if cfg.KnowZZ {
 			comps = append(comps, "zz")
 		}
